@@ -178,6 +178,8 @@ pub fn run(a: &Args, rep: &mut Report) {
             crate::p_pred::c11(a, rep, &out)
         }
         "C05" => crate::p_total::c05(a, rep),
+        // used by `./check setup` to compile a build (e.g. the Miri one) without running a monitor
+        "noop" => std::process::exit(0),
         "Xsurvey" => {
             crate::p_total::survey(a);
             std::process::exit(0);
